@@ -61,7 +61,7 @@ func (m *metadataStoreIndex) UpdateIndex(log ipfslog.Log, _ []ipfslog.Entry) err
 	m.lock.Lock()
 	defer m.lock.Unlock()
 
-	entries := log.GetEntries().Slice()
+	entries := sortedLogEntries(log)
 
 	// Resetting state
 	m.contacts = map[string]*AccountContact{}
